@@ -134,7 +134,10 @@ type cliResult struct {
 }
 
 func (c cliResult) runtimeFault() bool {
-	return bytes.Contains(c.stderr, []byte("runtime error")) || bytes.Contains(c.stderr, []byte("goroutine ")) && bytes.Contains(c.stderr, []byte("panic:")) && !bytes.Contains(c.stderr, []byte("PNC"))
+	// logger.Panic (zerolog) is a deliberate diagnostic: its trace goes through rs/zerolog frames (the PNC log line is
+	// absent when logging is disabled)
+	deliberate := bytes.Contains(c.stderr, []byte("PNC")) || bytes.Contains(c.stderr, []byte("rs/zerolog"))
+	return bytes.Contains(c.stderr, []byte("runtime error")) || bytes.Contains(c.stderr, []byte("goroutine ")) && bytes.Contains(c.stderr, []byte("panic:")) && !deliberate
 }
 
 // runCLI runs the freshly built binary.
